@@ -497,6 +497,14 @@ package eval
 //@   requires [parser] (PARSER $p)
 //@ func parser.buildParentNode C06 C01
 //@   requires [parser] (PARSER $p)
+// the two closures of an `if` node: the condition operator answers "jump?" = NOT the condition value (the evaluators
+// call it with exactly one operand, see the callsite clauses of Eval / TryEval); the end-if marker always jumps.
+//@ func parser.buildKeywordNode.operator C01 C06
+//@   requires [one-operand] (>= (len $params) 1)
+//@   ensures [bool-negated] (=> (is.bool (idx $params 0)) (and (= $ret1 ENil) (= $ret0 (V_bool (not (p_bool (idx $params 0)))))))
+//@   ensures [non-bool-is-error] (=> (not (is.bool (idx $params 0))) (not (= $ret1 ENil)))
+//@ func parser.buildKeywordNode.$2 C01 C06
+//@   ensures [fi-always-jumps] (and (= $ret1 ENil) (= $ret0 (V_bool true)))
 //@ func parser.parseConfig C06 C02
 //@   requires [parser] (PARSER $p)
 //@   loop 2 (rangeindex)
@@ -731,6 +739,26 @@ package eval
 //@               (and (= (mod $val 8) 4) (= (KIND $base) 3) (= $base (fld $root node)) (= (len (fld $root children)) 2)
 //@                    (let ((k0 (KIND (fld (CHILD $root 0) node))) (k1 (KIND (fld (CHILD $root 1) node))))
 //@                       (and (or (= k0 1) (= k0 2)) (or (= k1 1) (= k1 2)))))))
+
+// C09 / C06 — the stack-size pass: whatever the tree looks like, no node's osTop reaches the recorded maximum
+// (Eval/TryEval allocate 8, 16 or len(nodes) slots from e.maxStackSize and index os[osTop+1]).  The escape
+// `= 32767` is the int16 wrap of a height of -32768, which the layout never produces (WF is evaluated on
+// compiled programs; here nothing about the tree shape is assumed beyond index ranges).
+//@ macro (PROGSHAPE $e) (let ((n (len (fld $e nodes))) (o (off (fld $e nodes))) (po (off (fld $e parentIdx))))
+//@   (and (not (= $e 0)) (<= 1 n) (<= n 32767) (= (len (fld $e parentIdx)) n) (allocated (fld $e parentIdx))
+//@     (forall ((j Int)) (! (=> (and (<= o j) (< j (+ o n))) (not (= (select (arr (fld $e nodes)) j) 0))) :pattern ((select (arr (fld $e nodes)) j))))
+//@     (forall ((j Int)) (! (=> (and (<= po j) (< j (+ po n))) (and (<= -1 (select (arr (fld $e parentIdx)) j)) (< (select (arr (fld $e parentIdx)) j) n))) :pattern ((select (arr (fld $e parentIdx)) j))))
+//@     (forall ((k Int)) (! (=> (and (<= 0 k) (< k n) (= (KIND (NODEAT $e k)) 5) (= (fld (NODEAT $e k) value) (V_string "fi"))) (<= 0 (PARENTAT $e k))) :pattern ((PARENTAT $e k))))))
+//@ func calAndSetStackSize C09 C06
+//@   requires [shape] (PROGSHAPE $e)
+//@   ensures [stack-maximum-covers-every-node] (and (>= (fld $e maxStackSize) 1)
+//@      (forall ((k Int)) (! (=> (and (<= 0 k) (< k (len (fld $e nodes)))) (or (< (fld (NODEAT $e k) osTop) (fld $e maxStackSize)) (= (fld (NODEAT $e k) osTop) 32767))) :pattern ((NODEAT $e k)))))
+//@   loop 1 (i)
+//@     invariant [range] (and (<= 1 $i) (fresh $f) (= (len $f) (len (fld $e nodes))) (= (off $f) 0) (= (idx $f 0) 1))
+//@     invariant [frame] (forall ((r Int)) (! (=> (< r (old (next))) (= (select (heap E_int16) r) (select (old (heap E_int16)) r))) :pattern ((select (heap E_int16) r))))
+//@   loop 2 (rangeindex)
+//@     invariant [covered-so-far] (and (>= $maxStackSize 1) (fresh $f) (= (len $f) (len (fld $e nodes))) (= (off $f) 0)
+//@      (forall ((k Int)) (! (=> (and (<= 0 k) (<= k $rangeindex)) (or (< (fld (NODEAT $e k) osTop) $maxStackSize) (= (fld (NODEAT $e k) osTop) 32767))) :pattern ((NODEAT $e k)))))
 
 //@ func check C09 C06
 //@   requires [tree] (and (inTree $root) (ASTOK))
